@@ -409,13 +409,18 @@ def run_many(ctx, n):
     """Volumes of thousands of tiny chunks spread over more than a thousand
     shard files (every shard receives chunks from several z-slabs, far apart
     in write order), and volumes of more than 65536 chunks."""
-    shapes = [([2050, 1, 2], [0, 11, 2]), ([41, 41, 41], [1, 12, 0]),
-              ([1300, 2, 3], [0, 11, 1])]
-    for k, (shape, bits) in enumerate(shapes[:max(1, n)]):
+    shapes = [([2050, 1, 2], [0, 11, 2], 1), ([33, 20, 17], [0, 0, 0], 16),
+              ([41, 41, 41], [1, 12, 0], 1), ([1300, 2, 3], [0, 11, 1], 1),
+              ([70, 33, 9], [1, 1, 0], 32)]
+    # (chunk size 16 / 32: minishards of tens of KiB, beyond every read and
+    # copy block size of the writer)
+    for k, (shape, bits, cs) in enumerate(shapes[:max(2, n + 1)]):
         case = {"shape": shape, "layout": "3d", "channels": 1,
-                "stored": "uint8", "gz": False, "scaling": None,
+                "stored": "uint8" if cs == 1 else "uint16", "gz": False,
+                "scaling": None,
                 "ignore_scaling": False, "minmax": None, "mmap": False,
-                "out": "uint8", "chunk": [1, 1, 1], "encoding": "raw",
+                "out": "uint8" if cs == 1 else "uint16",
+                "chunk": [cs, cs, cs], "encoding": "raw",
                 "block": [8, 8, 8], "acc": "sharded", "bits": bits,
                 "shard_enc": "raw", "shard_enc_data": "raw",
                 "content": "position", "seed": ctx.seed + k,
@@ -428,7 +433,8 @@ def run_many(ctx, n):
             ctx.violations.append({"sub": "many_shards", "case": case,
                                    "message": str(exc)})
             return
-        ctx.record(case, True, ["shards>1024"])
+        ctx.record(case, True, ["shards>1024" if cs == 1 else
+                                "minishard>4KiB"])
 
 
 def replay(ctx, case):
